@@ -52,13 +52,15 @@ func init() {
 			"(A-stage) per Journal.Process call, stage by stage: once a stage appends to a per-day slice in map order, every later callback that receives its elements must be order-free until a stage sorts the slice;",
 			"(A-arrival) the per-file batches of directives reach the journal builder sequentially from a collection sorted by file path, not from per-file goroutines.",
 			"(I-recheck) interning is atomic (membership re-tested under the write lock): one name never gets two objects depending on goroutine scheduling.",
+			"(K-compare-prims) the primitive comparators the ordering rules trust are total and agree with the values: dates are compared as instants (no UnixNano, Format …), the generic comparator is cmp.Compare or never used on floats;",
+			"(K-path-identity) the path by which the batches of parsed files are ordered is the path each file was read from, not a derived name;",
 		},
 		NotDecided: []string{
 			"which of several concurrent errors is reported on stderr (exit status is 1 either way);",
 			"dependence on the wall clock through the default --to;",
 			"byte equality itself (no execution); the classification is per loop body, so an order dependence that needs two cooperating loops in different functions with no shared slice, field or map between them is not seen.",
 		},
-		Rules: []Rule{RuleAOrder, RuleAArrival, RuleIRecheck},
+		Rules: []Rule{RuleAOrder, RuleAArrival, RuleIRecheck, RuleKComparePrims, RuleKPathIdentity},
 	})
 }
 
@@ -73,13 +75,14 @@ func init() {
 			"(K-insert, K-report-amounts) the balance report adds each posting with a non-nil mapped account exactly once on every path, keyed by the transaction's date, and nothing but Report.Insert's lazy initialisation ever writes a node's amounts;",
 			"(K-delta) the Delta row is Totals()#0 after Plus(Totals()#1), not negated, with no Minus on the flow.",
 			"(K-decimal-config) no function of the module writes a package variable of shopspring/decimal (DivisionPrecision …): reciprocals and products are truncated, not rounded by the library;",
+			"(K-totals-all) the totals take the amounts of every node of the report tree, and an accumulation into a total always stores the new sum;",
 		},
 		NotDecided: []string{
 			"that shopspring/decimal is exact (trusted);",
 			"anything about filters and mappings (the property excludes them);",
 			"a wrong-but-symmetric value (that is C03).",
 		},
-		Rules: []Rule{RuleCPosting, RuleCPostings, RuleJPair, RuleCValue, RuleJValuation, RuleKDayTx, RuleKInsert, RuleKReportAmounts, RuleKDelta, RuleKDecimalConfig},
+		Rules: []Rule{RuleCPosting, RuleCPostings, RuleJPair, RuleCValue, RuleJValuation, RuleKDayTx, RuleKInsert, RuleKReportAmounts, RuleKDelta, RuleKDecimalConfig, RuleKTotalsAll},
 	})
 }
 
@@ -96,12 +99,14 @@ func init() {
 			"(I-recheck) interning is atomic: a new account or commodity is inserted only after a membership test under the same exclusive lock, so one name has one object and positions keyed by it do not split;",
 			"(K-day-key) the key under which the builder files a day is an injective function of the date (the time itself, a mixed-radix integer of its components, or a full-date format): directives of one date form one day, of two dates two;",
 			"(J-pair) every booking yields its two postings on every path of the pair builder, so the checker sees (and tests the accounts of) every booking, also one of zero;",
+			"(K-builders-all) every booking gets its pair of postings, so the checker sees every booking;",
+			"(K-compare-prims) the primitive comparators the ordering rules trust are total and agree with the values: dates are compared as instants (no UnixNano, Format …), the generic comparator is cmp.Compare or never used on floats;",
 		},
 		NotDecided: []string{
 			"the iff itself: the comparison of quantities in assertions, the zero test on close, the text of diagnostics;",
 			"assertions on non asset/liability accounts (the checker tracks quantities only for A/L accounts).",
 		},
-		Rules: []Rule{RuleDProcessOrder, RuleKSortedDays, RuleKFifo, RuleDOpenClose, RuleDReject, RuleDCheckFirst, RuleCSparse, RuleIRecheck, RuleKDayKey, RuleJPair},
+		Rules: []Rule{RuleDProcessOrder, RuleKSortedDays, RuleKFifo, RuleDOpenClose, RuleDReject, RuleDCheckFirst, RuleCSparse, RuleIRecheck, RuleKDayKey, RuleJPair, RuleKBuildersAll, RuleKComparePrims},
 	})
 }
 
@@ -116,12 +121,15 @@ func init() {
 			"(K-add-commutes) the journal builder accumulates directives order-free: Builder.Add only appends to bags, get-or-creates days and keeps a running minimum/maximum; no error return depends on earlier directives and nothing is deleted from the builder's maps; (K-nested-limit) the include loader has no concurrency limit that a deep include tree could exhaust;",
 			"(D-loader-reject) the loader constructs no error of its own except under the ancestor (include-cycle) test;",
 			"(K-day-key) the key under which the builder files a day is an injective function of the date;",
+			"(K-compare-prims) the primitive comparators the ordering rules trust are total and agree with the values: dates are compared as instants (no UnixNano, Format …), the generic comparator is cmp.Compare or never used on floats;",
+			"(K-path-identity) the path by which the batches of parsed files are ordered is the path each file was read from, not a derived name;",
+			"(K-slice-alias) no loop keeps results of append on one unclipped loop-invariant base, and none keeps the address of an element of a slice it appends to: one file's / one element's data does not show up in another's;",
 		},
 		NotDecided: []string{
 			"byte equality of reports under permutation of the directives (no execution);",
 			"commutativity of the checker callbacks within one kind on one day (two opens, or two assertions, of one day are evaluated in arrival order; the verdict does not depend on it for journals the property admits, argued informally only).",
 		},
-		Rules: []Rule{RuleDProcessOrder, RuleKSortedDays, RuleAArrival, RuleAOrder, RuleKAddCommutes, RuleDIncludePath, RuleDLoaderReject, RuleDPushOnce, RuleKNestedLimit, RuleKDayKey},
+		Rules: []Rule{RuleDProcessOrder, RuleKSortedDays, RuleAArrival, RuleAOrder, RuleKAddCommutes, RuleDIncludePath, RuleDLoaderReject, RuleDPushOnce, RuleKNestedLimit, RuleKDayKey, RuleKComparePrims, RuleKPathIdentity, RuleKSliceAlias},
 	})
 }
 
@@ -136,12 +144,16 @@ func init() {
 			"(K-insert) every posting with a non-nil mapped account is added exactly once, keyed by the transaction's date.",
 			"(K-name-anchored) no unanchored substring replacement is applied to an account name or its segments (remapping edits the type root only);",
 			"(K-part-align) the column a booking lands in is the end of the first period that does not end before its date (binary search on the period ends), under no other condition;",
+			"(K-utc) the window bounds given on the command line are UTC midnights like every journal date: no time.Date / ParseInLocation in another location;",
+			"(D-days-before-build) the days that closing needs are registered with the builder before the journal is built;",
+			"(K-part-chain) the partition the window filter and the reports share: periods chained from the window end, its span is the window itself, --last keeps exactly n;",
+			"(K-totals-all) the totals take the amounts of every node of the report tree, and an accumulation into a total always stores the new sum;",
 		},
 		NotDecided: []string{
 			"any cell value: window, --last, --diff and closing arithmetic, running sums, row selection (arithmetic over runtime dates and amounts; no rule in reach bounds them);",
 			"the alignment of dates to period ends (C11).",
 		},
-		Rules: []Rule{RuleB1, RuleKNameAnchored, RuleG1, RuleG2, RuleKWhereBeforeSelect, RuleKPartitionWhole, RuleKPartAlign, RuleKInsert, RuleKReportAmounts},
+		Rules: []Rule{RuleB1, RuleKNameAnchored, RuleG1, RuleG2, RuleKWhereBeforeSelect, RuleKPartitionWhole, RuleKPartAlign, RuleKInsert, RuleKReportAmounts, RuleKUTC, RuleDDaysBeforeBuild, RuleKPartChain, RuleKTotalsAll},
 	})
 	claim(&Property{
 		ID: "C03",
@@ -155,12 +167,15 @@ func init() {
 			"(A-order) the loops of the valuation stage over the open positions are complete and order-free: no early success exit after effects, no order-dependent overwrite;",
 			"(G2, K-bfs) the valuation runs before the window filter (positions opened before the window are revalued inside it); the normalized price of a commodity is assigned once, breadth-first from the valuation commodity, so a directly declared price is not replaced by a derived one;",
 			"(K-decimal-config) no function of the module writes a package variable of shopspring/decimal (DivisionPrecision …): reciprocals and products are truncated, not rounded by the library;",
+			"(D-days-before-build) the days that closing needs are registered with the builder before the journal is built;",
+			"(K-part-chain) the partition the window filter and the reports share: periods chained from the window end, its span is the window itself, --last keeps exactly n;",
+			"(K-utc) window bounds and journal dates share one location;",
 		},
 		NotDecided: []string{
 			"the values themselves: which day's price is the latest on or before a date, truncation results, chained prices (C12 decides the price function's determinism, not its value);",
 			"that the accumulated gain equals the sum of daily adjustments (arithmetic).",
 		},
-		Rules: []Rule{RuleKPriceMiss, RuleDStateAllPaths, RuleKReval, RuleKBothDirections, RuleKBfs, RuleJValuation, RuleG1, RuleG2, RuleB1, RuleAOrder, RuleKDecimalConfig},
+		Rules: []Rule{RuleKPriceMiss, RuleDStateAllPaths, RuleKReval, RuleKBothDirections, RuleKBfs, RuleJValuation, RuleG1, RuleG2, RuleB1, RuleAOrder, RuleKDecimalConfig, RuleDDaysBeforeBuild, RuleKPartChain, RuleKUTC},
 	})
 	claim(&Property{
 		ID: "C12",
@@ -173,11 +188,12 @@ func init() {
 			"(K-price-miss) an unconnected commodity has no price and valuing it is an error.",
 			"(K-prices-order) the order of a day's prices (a later one replaces an earlier one) is never changed: Day.Prices is written only by the builder's append and handed to no function;",
 			"(K-decimal-config) no function of the module writes a package variable of shopspring/decimal (DivisionPrecision …): reciprocals and products are truncated, not rounded by the library;",
+			"(I-recheck) a commodity is interned once: the price graph is keyed by the interned pointers, two pointers for one name disconnect it;",
 		},
 		NotDecided: []string{
 			"which path's product is used among several chains (breadth-first from V, neighbours in name order, by reading), the 8-digit truncation values, and that the most recent declaration per pair is the one in the table on a given day (that is the price stage's carry-forward, C03).",
 		},
-		Rules: []Rule{RuleAOrder, RuleKBfs, RuleKBothDirections, RuleKPricesOrder, RuleDDiv, RuleKPriceMiss, RuleDStateAllPaths, RuleKDecimalConfig},
+		Rules: []Rule{RuleAOrder, RuleKBfs, RuleKBothDirections, RuleKPricesOrder, RuleDDiv, RuleKPriceMiss, RuleDStateAllPaths, RuleKDecimalConfig, RuleIRecheck},
 	})
 }
 
@@ -214,13 +230,14 @@ func init() {
 			"(K-acct-predicates) IsIE (the legs that are split) is true exactly for INCOME and EXPENSES and IsAL exactly for ASSETS and LIABILITIES, by evaluating the two method bodies for the five values of the type enumeration;",
 			"(K-week-bounds) weekly accrual periods: the day offsets derived from the weekday land on the Monday / Sunday of the date's own week;",
 			"(K-month-bounds) monthly, quarterly and yearly accrual periods: StartOf/EndOf return the first / last day of the date's own period for every month class;",
+			"(K-interval-names) the interval keyword of an @accrue annotation is read as the interval that prints under that name: parse(c.String()) = c for every constant of the interval type (both tables evaluated on constants);",
 		},
 		NotDecided: []string{
 			"QuoRem's arithmetic (trusted library contract q*n + r = x);",
 			"the calendar partition beyond what K-week-bounds and K-month-bounds decide about StartOf/EndOf (see C11);",
 			"that the accrual account nets to zero numerically (follows from the above by arithmetic, not checked).",
 		},
-		Rules: []Rule{RuleCPosting, RuleCPostings, RuleJPair, RuleFAcctTypes, RuleKAcctPredicates, RuleDDiv, RuleKRemainder, RuleKAccrualDates, RuleKWeekBounds, RuleKMonthBounds},
+		Rules: []Rule{RuleCPosting, RuleCPostings, RuleJPair, RuleFAcctTypes, RuleKAcctPredicates, RuleDDiv, RuleKRemainder, RuleKAccrualDates, RuleKWeekBounds, RuleKMonthBounds, RuleKIntervalNames},
 	})
 }
 
@@ -254,11 +271,13 @@ func init() {
 			"(K-weights-sum) every update of a weights node adds to the entry it replaces (leaves and groups), the node's map is replaced only by lazy initialisation, and Report.Add receives V1[com] divided by the sum of V1 over the same commodities;",
 			"(K-transfer-fresh) the per-transaction flow maps handed to the additive transfer (performance.split) start empty at every invocation of the callback, so no flow is transferred twice.",
 			"(K-day-reset) a stage of the performance calculator that accumulates a figure within a day and reads it at the end of the day assigns it in DayStart on every path;",
+			"(K-utc) the window bounds given on the command line are UTC midnights like every journal date (a time.Time in another location is a different key of the builder's day map);",
+			"(K-slice-alias) no loop keeps results of append on one unclipped loop-invariant base, and none keeps the address of an element of a slice it appends to: one file's / one element's data does not show up in another's;",
 		},
 		NotDecided: []string{
 			"agreement of the weights with `balance -v` (arithmetic over runtime values), the return formula itself, the classification of a posting as external or internal flow.",
 		},
-		Rules: []Rule{RuleDDaysBeforeBuild, RuleG1, RuleB1, RuleKPartitionWhole, RuleAOrder, RuleKWeightsSum, RuleKTransferFresh, RuleKDayReset},
+		Rules: []Rule{RuleDDaysBeforeBuild, RuleG1, RuleB1, RuleKPartitionWhole, RuleAOrder, RuleKWeightsSum, RuleKTransferFresh, RuleKDayReset, RuleKUTC, RuleKSliceAlias},
 	})
 }
 
@@ -270,12 +289,13 @@ func init() {
 			"(D-atomic, caller side) at each of the three atomic.WriteFile sites the data is a local bytes.Buffer, and the replacement is dominated by the success edges of every call that fills the buffer and of every call that reads the same path (the parse);",
 			"(D-atomic, library side) in natefinch/atomic v1.0.1 (analysed from the module cache, all three GOOS in the thorough tier) new bytes go to a temp file created in the target's directory, and the target is named mutably only as the destination of ReplaceFile, which is dominated by successful io.Copy, Sync and Close;",
 			"(D-each-file) format applies the per-file function to every argument through iter.Map and combines all errors.",
+			"(K-errors) no error of the parser is dropped on the way to the command: an unparseable journal is reported, not rewritten;",
 		},
 		NotDecided: []string{
 			"atomicity of rename(2)/MoveFileEx itself and durability of the directory entry (trusted OS contract);",
 			"that a failing write leaves no temp file behind.",
 		},
-		Rules: []Rule{RuleCFileWrite, RuleDAtomic, RuleDEachFile},
+		Rules: []Rule{RuleCFileWrite, RuleDAtomic, RuleDEachFile, RuleKErrors},
 	})
 }
 
@@ -290,11 +310,12 @@ func init() {
 			"(F-directive-types) parser, model and syntax printer agree on the set of directive types;",
 			"(D-atomic, C-filewrite) a file that does not parse or render is not written.",
 			"(K-range-text) outside lib/syntax/directives the field Range.Text (the whole file) is only sliced, indexed, measured or copied;",
+			"(K-errors) no error of the parser is dropped on the way to the command;",
 		},
 		NotDecided: []string{
 			"idempotence and equality of the re-parsed tree (no execution); column alignment arithmetic; that fields are printed in the order they are parsed.",
 		},
-		Rules: []Rule{RuleFGap, RuleFFields, RuleFPresence, RuleFKeywords, RuleFDirectiveTypes, RuleDAtomic, RuleCFileWrite, RuleKRangeText},
+		Rules: []Rule{RuleFGap, RuleFFields, RuleFPresence, RuleFKeywords, RuleFDirectiveTypes, RuleDAtomic, RuleCFileWrite, RuleKRangeText, RuleKErrors},
 	})
 	claim(&Property{
 		ID: "C09",
@@ -308,11 +329,12 @@ func init() {
 			"(D-check-first) print runs the checker before printing.",
 			"(K-prices-order) no stage (the normal-form sort included) reorders a day's prices, whose order decides which of two same-day prices wins;",
 			"(K-swap-sign) the condition under which the pair builder exchanges credit and debit, evaluated on the nine sign states of (quantity, value), never holds for a state and for its negation: an exchanged booking is not exchanged again when it is read back;",
+			"(K-builders-all) every booking of a transaction gets its pair of postings (no booking is skipped when the model is built), so no transaction is printed without bookings;",
 		},
 		NotDecided: []string{
 			"the round trip itself (no execution): that the printed text re-parses to the same model, e.g. escaping inside descriptions (see C13 for quotes), date format strings; of the posting sign normalisation only its stability on the nine sign states (K-swap-sign).",
 		},
-		Rules: []Rule{RuleFKeywords, RuleFFields, RuleFMultiline, RuleFModelOnly, RuleKPrintPairs, RuleKPricesOrder, RuleHQuotes, RuleCRound, RuleAOrder, RuleFDirectiveTypes, RuleDCheckFirst, RuleKSwapSign},
+		Rules: []Rule{RuleFKeywords, RuleFFields, RuleFMultiline, RuleFModelOnly, RuleKPrintPairs, RuleKPricesOrder, RuleHQuotes, RuleCRound, RuleAOrder, RuleFDirectiveTypes, RuleDCheckFirst, RuleKSwapSign, RuleKBuildersAll},
 	})
 	claim(&Property{
 		ID: "C17",
@@ -321,12 +343,13 @@ func init() {
 			"(F-width-unit) a text cell's content is used only whole or through a character count, at the width site and at the padding site alike (no byte-wise len, copy, slicing or []byte conversion);",
 			"(C-round) the text renderer scales by the write-once constant 1000 only under Thousands and rounds with decimal.StringFixed(Round) (half away from zero); the CSV renderer calls only decimal.String.",
 			"(K-width-all) every cell of every row contributes to its column's width: the width update depends only on the loops over rows and cells and on the comparison with the measured width;",
+			"(K-decimal-config) no function of the module changes the decimal library's division precision: the /1000 of --thousands is exact to 16 digits before it is rounded to --digits;",
 		},
 		NotDecided: []string{
 			"digit grouping, padding arithmetic, sign and blank-zero rules, equal line width (arithmetic on runtime strings);",
 			"percent cells (portfolio weights; outside this property).",
 		},
-		Rules: []Rule{RuleFCells, RuleFWidthUnit, RuleCRound, RuleKWidthAll},
+		Rules: []Rule{RuleFCells, RuleFWidthUnit, RuleCRound, RuleKWidthAll, RuleKDecimalConfig},
 	})
 }
 
@@ -343,12 +366,13 @@ func init() {
 			"(K-builders-all) the pair builders build the postings of every booking they are given (no booking is skipped, so no transaction is left without postings);",
 			"(K-tx-nonempty) an importer builds the postings of a transaction from a list of pair builders only if that list has an element on every path (or under a test of its length): no transaction without bookings is printed;",
 			"(K-kv-keys) a constant under which an importer looks a header value up is a fixed point of the normalisation it applies to the keys it stores (strings functions folded on the constant);",
+			"(K-add-commutes) the journal builder accepts every directive the importer adds, whatever was added before: no row is dropped because an equal one exists;",
 		},
 		NotDecided: []string{
 			"row fidelity: one transaction per row, on the row's date, with the row's signed amount in the row's currency (which column is read, sign conventions, thousands separators): values of runtime strings, no structural reading;",
 			"zero-amount rows and other value-dependent printing paths.",
 		},
-		Rules: []Rule{RuleCStdout, RuleHQuotes, RuleKRegistryOrigin, RuleCPostings, RuleKBuildersAll, RuleFKeywords, RuleFMultiline, RuleFModelOnly, RuleKPrintPairs, RuleAOrder, RuleKTxNonempty, RuleKKVKeys},
+		Rules: []Rule{RuleCStdout, RuleHQuotes, RuleKRegistryOrigin, RuleCPostings, RuleKBuildersAll, RuleFKeywords, RuleFMultiline, RuleFModelOnly, RuleKPrintPairs, RuleAOrder, RuleKTxNonempty, RuleKKVKeys, RuleKAddCommutes},
 	})
 }
 
@@ -366,12 +390,13 @@ func init() {
 			"(E-loops) the parser terminates on every input (shared with C07).",
 			"(K-chan) a failing stage cannot leave its neighbours blocked on a channel: pools with unbuffered links cancel on error or their stages drain their input, so the command terminates with the error;",
 			"(D-write-last) once the directive writers (journal.Print, the beancount transcoder) have started to write, the only errors they return come from writing: no validation can fail after the first byte of the report;",
+			"(I-locks) no function of a registry calls, while it holds the registry's mutex, a function that acquires it again (sync.RWMutex is not reentrant: the command would hang);",
 		},
 		NotDecided: []string{
 			"implicit panics in general (index and slice bounds that do not come from a flag or from the input text, nil maps, type assertions);",
 			"memory bounds other than the include cycle; hangs other than the channel protocol of C19.",
 		},
-		Rules: []Rule{RuleCPanic, RuleDDiv, RuleDNilFlag, RuleDFlagInt, RuleDMakeCap, RuleDRecursion, RuleKNestedLimit, RuleKChan, RuleKErrors, RuleDOutAfter, RuleDWriteLast, RuleELoops},
+		Rules: []Rule{RuleCPanic, RuleDDiv, RuleDNilFlag, RuleDFlagInt, RuleDMakeCap, RuleDRecursion, RuleKNestedLimit, RuleKChan, RuleKErrors, RuleDOutAfter, RuleDWriteLast, RuleELoops, RuleILocks},
 	})
 }
 
@@ -385,11 +410,12 @@ func init() {
 			"(F-valuation-open) the predicate that recognises generated valuation accounts accepts what Registry.ValuationAccountFor builds (violated on this tree: known finding);",
 			"(D-nilflag) a missing valuation is an error, not a nil dereference; (D-check-first, G1) the checker and the price stage precede the valuation.",
 			"(K-reval) the daily value adjustments that transcode emits: one per open position whose price moved — positions are skipped only for the reviewed reasons (sign tests decided on the sign domain: only a zero quantity or an unchanged price);",
+			"(D-open-close) the checker in front of the transcoder keeps the set of open accounts (close removes on every success path), so no posting follows the close of its account;",
 		},
 		NotDecided: []string{
 			"open-before-use for user accounts (that is the checker's job, C04); completeness against a reference beancount run; escaping of descriptions for beancount.",
 		},
-		Rules: []Rule{RuleKAllPostings, RuleKEmitAll, RuleJPair, RuleJValuation, RuleKTranscodeOrder, RuleKSortedDays, RuleFValuationOpen, RuleDNilFlag, RuleDCheckFirst, RuleG1, RuleKReval},
+		Rules: []Rule{RuleKAllPostings, RuleKEmitAll, RuleJPair, RuleJValuation, RuleKTranscodeOrder, RuleKSortedDays, RuleFValuationOpen, RuleDNilFlag, RuleDCheckFirst, RuleG1, RuleKReval, RuleDOpenClose},
 	})
 	claim(&Property{
 		ID: "C19",
@@ -401,11 +427,12 @@ func init() {
 			"(K-fifo, D-push-once, F-directive-types, K-nested-limit) one goroutine per stage, each item forwarded exactly once, no directive type is dropped between the stages, no concurrency limit on the group with nested submission.",
 			"(I-recheck) a fresh object is published into a registry map only after a membership test under the same exclusive acquisition (no check-then-act across the read lock);",
 			"(K-postings-fresh) postings stored into a transaction inside a loop are built inside that loop: no two transactions (days) share Posting objects;",
+			"(K-slice-alias) no loop keeps results of append on one unclipped loop-invariant base, and none keeps the address of an element of a slice it appends to: one file's / one element's data does not show up in another's;",
 		},
 		NotDecided: []string{
 			"race freedom in general: no pointer analysis is available (x/tools v0.29 has no go/pointer; VTA resolves calls, not aliases), so races through objects other than the registries, interned objects and stage arguments are not excluded;",
 			"schedule-dependent liveness beyond the protocol rules.",
 		},
-		Rules: []Rule{RuleILocks, RuleIRecheck, RuleB1, RuleB2, RuleKPostingsFresh, RuleG3, RuleKChan, RuleKFifo, RuleDPushOnce, RuleFDirectiveTypes, RuleKNestedLimit},
+		Rules: []Rule{RuleILocks, RuleIRecheck, RuleB1, RuleB2, RuleKPostingsFresh, RuleG3, RuleKChan, RuleKFifo, RuleDPushOnce, RuleFDirectiveTypes, RuleKNestedLimit, RuleKSliceAlias},
 	})
 }
